@@ -299,6 +299,16 @@ def check_keys(prop, lane, spec):
 def triage(prop, lane, spec, viol, findings, min_budget):
     """known-finding attribution by neutraliser re-run, else minimise + replay file"""
     key = viol.key()
+    if hasattr(prop, "focus_spec"):
+        # narrow the scenario to the plan / fault / variant that failed before attributing or minimising
+        try:
+            fs = prop.focus_spec(copy.deepcopy(spec), viol)
+            if fs is not None and key in check_keys(prop, lane, fs):
+                spec = fs
+        except SUT.HarnessError:
+            raise
+        except Exception:
+            pass
     for f in findings:
         if f.get("property") != prop.id:
             continue
@@ -309,6 +319,14 @@ def triage(prop, lane, spec, viol, findings, min_budget):
         neut = prop.neutralisers().get(f.get("neutraliser"))
         if neut is None:
             continue
+        if f.get("precond"):
+            # the finding names the specific history that fails; a scenario without it is never attributed
+            pre = getattr(prop, "preconditions", lambda: {})().get(f["precond"])
+            try:
+                if pre is None or not pre(copy.deepcopy(spec)):
+                    continue
+            except Exception:
+                continue
         spec2 = neut(copy.deepcopy(spec))
         if spec2 is None or json.dumps(spec2, sort_keys=True) == json.dumps(spec, sort_keys=True):
             continue   # the trigger of this finding is not present in the scenario
@@ -318,15 +336,6 @@ def triage(prop, lane, spec, viol, findings, min_budget):
             raise
         if key not in keys2:
             return {"kind": "known", "kf": f.get("id"), "what": f.get("what"), "key": key}
-    if hasattr(prop, "focus_spec"):
-        try:
-            fs = prop.focus_spec(copy.deepcopy(spec), viol)
-            if fs is not None and key in check_keys(prop, lane, fs):
-                spec = fs
-        except SUT.HarnessError:
-            raise
-        except Exception:
-            pass
     small, mstats = minimise(lambda s: check_keys(prop, lane, s), spec, key, budget_s=min_budget,
                              extra=getattr(prop, "reduction_candidates", None))
     return {"kind": "violation", "key": key, "spec": small, "min": mstats, "orig_digest": spec_digest(spec)}
